@@ -148,7 +148,7 @@ pub fn render_file(fi: usize, f: &TFile) -> RenderedFile {
             classes &= !INSIDE;
         }
         let inside_kind = if classes & INSIDE != 0 {
-            let mut k = b.inside_kind % 4;
+            let mut k = b.inside_kind % 5;
             // a pure deletion must stay a pure deletion (no other edit of this block, >= 2 lines) and needs no earlier shift (K1)
             if k == 2 && (classes != INSIDE || b.lines.len() < 2 || layout == 2) {
                 k = 0;
@@ -253,6 +253,11 @@ pub fn render_file(fi: usize, f: &TFile) -> RenderedFile {
                             // the new state has an empty line where the old state had text
                             new.push(String::new());
                             old.push(l.clone());
+                        }
+                        4 => {
+                            // the old state had two blanks at the end of the line: an edit of trailing white space only
+                            new.push(l.clone());
+                            old.push(format!("{l}  "));
                         }
                         _ => {
                             // deletion between line k-1 and k (k >= 1 guaranteed below)
@@ -455,7 +460,7 @@ pub fn block_strategy() -> BoxedStrategy<TBlock> {
         proptest::collection::vec(rule, 0..3),
         proptest::collection::vec(0..LINES.len(), 0..6),
         prop_oneof![3 => Just(0u8), 3 => Just(INSIDE), 3 => Just(TAG), 2 => Just(ENDTAG), 2 => 0u8..8],
-        0u8..4,
+        0u8..5,
         any::<u8>(),
         0u8..4,
         0u8..2,
@@ -654,7 +659,7 @@ pub fn check_sweep(c: &SweepCase, probe: &Probe) -> Verdict {
 }
 
 pub fn run(run: &mut Run) {
-    run.rule = "random: 1..3 files (js, sh, rs, py, c) x 2..7 uniquely named non-nested blocks (own-line line comments, own-line block comments, everything on one line, a start tag spread over three lines with the edited attribute on the middle one, both tags inside one multi-line block comment, or nested in an untouched outer block whose start tag shares the comment) separated by 5 padding lines, each with 0..2 rules (keep-sorted, keep-unique, line-pattern, line-count, check-lua echo/nil; violating or not by chance) and a *set* of edit classes: inside (replace / insert / pure deletion / blanking of a content line), tag-only (substitute or insert a character of an attribute value, append an attribute, change the last attribute's value), end-tag-only (text after </block>, whitespace in </ block >), plus edits of padding lines (outside) and untouched blocks; a 600-byte attribute in one tag of seven; multi-byte text before the tag and inside it (an attribute in front of the edited one) in 25%; real `git diff -U0..10`, in a third of the cases with a deleted file and an emptied file in front of the others; optional path arguments. Oracle: (a) `list` in diff mode = exactly the inside/tag-only blocks with is_content_modified exactly for inside; (b) diff-mode diagnostics = full-scan diagnostics restricted to the selected blocks' extents, exit status accordingly; (c) with path arguments = full scan of those files + diff-mode result of the others. enumerated sweep: every byte position of the start tag, the comment text before and after it, the content, the whole end-tag comment and the code after it in 3 one-line block templates (ASCII, multi-byte before the tag, indented) x {substitute, insert, delete}. Non-trivial (random) = a violating untouched block, a violating selected block and a tag-only block; (sweep) = a region boundary or a position where byte and character columns differ.".into();
+    run.rule = "random: 1..3 files (js, sh, rs, py, c) x 2..7 uniquely named non-nested blocks (own-line line comments, own-line block comments, everything on one line, a start tag spread over three lines with the edited attribute on the middle one, both tags inside one multi-line block comment, or nested in an untouched outer block whose start tag shares the comment) separated by 5 padding lines, each with 0..2 rules (keep-sorted, keep-unique, line-pattern, line-count, check-lua echo/nil; violating or not by chance) and a *set* of edit classes: inside (replace / insert / pure deletion / blanking of a content line / removal of trailing blanks only), tag-only (substitute or insert a character of an attribute value, append an attribute, change the last attribute's value), end-tag-only (text after </block>, whitespace in </ block >), plus edits of padding lines (outside) and untouched blocks; a 600-byte attribute in one tag of seven; multi-byte text before the tag and inside it (an attribute in front of the edited one) in 25%; real `git diff -U0..10`, in a third of the cases with a deleted file and an emptied file in front of the others; optional path arguments. Oracle: (a) `list` in diff mode = exactly the inside/tag-only blocks with is_content_modified exactly for inside; (b) diff-mode diagnostics = full-scan diagnostics restricted to the selected blocks' extents, exit status accordingly; (c) with path arguments = full scan of those files + diff-mode result of the others. enumerated sweep: every byte position of the start tag, the comment text before and after it, the content, the whole end-tag comment and the code after it in 3 one-line block templates (ASCII, multi-byte before the tag, indented) x {substitute, insert, delete}. Non-trivial (random) = a violating untouched block, a violating selected block and a tag-only block; (sweep) = a region boundary or a position where byte and character columns differ.".into();
     run.assumptions = vec![
         "pure line deletions are only generated where no earlier net line shift exists in the file (K1 excluded by construction, counted)".into(),
         "the sweep edits the OLD line only (the parsed NEW line is always the intact template); a deletion directly adjoining the start tag's `<` or `>` is unspecified and not judged".into(),
